@@ -102,7 +102,7 @@ def run(ctx):
     # the event family, plus the small WSGI family (request size limits, aborts, ?wsdl): the same clauses "for every call"
     # (plain results, responses consumed to the end: generator bodies and aborts have their own clauses in C13)
     scens = pc.export_scenarios(ctx, 'events') + [s for s in pc.export_scenarios(ctx, 'wsgitiny' if ctx.quick else 'wsgiq')
-                                                 if s['inj'].get('res', 'plain') == 'plain' and s['abort'] == 99 and s['req'].get('kind', 'rpc') == 'rpc']
+                                                 if s['inj'].get('res', 'plain') == 'plain' and s['abort'] == 99]
     for s in scens:
         if s['cfg']['tr'] == 'wsgi' and s['cfg']['maxlen'] <= 4:
             s['units'] = True          # lengths of the small WSGI family are in units (drive_pipeline.UNIT bytes)
